@@ -339,3 +339,39 @@ def run(repo: Repo, rep: Report) -> None:  # noqa: F811
                    "only for key > 0" if guarded else "_get_container(%s - 1) is evaluated for key == 0 as well: the `predecessor` of the head is the head itself (or the last cell)" % kv, node=c)
     if n_sites == 0:
         rep.ob("C19.i-head-deletion-does-not-relink-a-predecessor", col, "Collection.__delitem__", "no predecessor lookup by index arithmetic", True, "", node=di)
+
+
+_run_base2 = run
+
+
+def run(repo: Repo, rep: Report) -> None:  # noqa: F811
+    _run_base2(repo, rep)
+    col = repo.mod("rdflib.collection")
+    m = col.methods("Collection")
+    # ------------------------------------------------------------------ (j)
+    rep.rule("C19.j-cell-occupancy-is-read-from-the-graph",
+             "append and __iadd__ decide whether the end cell already holds a member by asking the graph (`(end, rdf:first, None) in graph`) for the cell they are about to fill, "
+             "at the point of filling it: inside __iadd__'s loop, once per item. A flag computed before the loop (`the end cell is the head of an empty list`) is wrong for the "
+             "one-member list, whose end cell is the head too, and stale after the first item", floor=2)
+    for name in ("append", "__iadd__"):
+        f = m[name]
+        adds = [c for c in own_nodes(f) if isinstance(c, ast.Call) and isinstance(c.func, ast.Attribute) and c.func.attr in ("add", "set") and c.args and isinstance(c.args[0], ast.Tuple)
+                and len(c.args[0].elts) == 3 and norm(c.args[0].elts[1]).endswith("RDF.first")]
+        if not adds:
+            raise AnalysisError("Collection.%s adds no rdf:first" % name)
+        for a in adds:
+            cell = norm(a.args[0].elts[0])
+            # the nearest enclosing loop (or the function) must contain, before the add, an If whose test is a membership test on (cell, RDF.first, None)
+            scope = f
+            for p_ in col.parents(a):
+                if isinstance(p_, (ast.For, ast.While)):
+                    scope = p_
+                    break
+                if p_ is f:
+                    break
+            tests = [n for n in ast.walk(scope) if isinstance(n, ast.If) and n.lineno < a.lineno and any(
+                isinstance(c, ast.Compare) and isinstance(c.ops[0], (ast.In, ast.NotIn)) and isinstance(c.left, ast.Tuple) and len(c.left.elts) == 3
+                and norm(c.left.elts[0]) == cell and norm(c.left.elts[1]).endswith("RDF.first") for c in ast.walk(n.test))]
+            rep.ob("C19.j-cell-occupancy-is-read-from-the-graph", col, "Collection." + name, a, bool(tests),
+                   "occupancy of %s read from the graph %s" % (cell, "in the loop" if scope is not f else "before filling") if tests else
+                   "the member is written to %s without asking the graph, in this %s, whether that cell already has one: on a one-member list `c += [x]` writes a second rdf:first onto the head cell" % (cell, "loop iteration" if scope is not f else "call"), node=a)
